@@ -98,6 +98,45 @@ var patternReplacements = map[string]string{
 	"\\p{IsBasicLatin}": "[\\x{0000}-\\x{007F}]",
 }
 
+// replaceXMLClasses writes the XML character classes of
+// patternReplacements as the classes they stand for.  Inside a bracket
+// expression the class goes in without its own brackets ("[\p{IsBasicLatin}x]"
+// is "[\x{0000}-\x{007F}x]", not a class in a class).
+func replaceXMLClasses(s string) string {
+	var b strings.Builder
+	inClass := false
+	for i := 0; i < len(s); {
+		replaced := false
+		for k, v := range patternReplacements {
+			if strings.HasPrefix(s[i:], k) {
+				if inClass {
+					v = strings.TrimSuffix(strings.TrimPrefix(v, "["), "]")
+				}
+				b.WriteString(v)
+				i += len(k)
+				replaced = true
+				break
+			}
+		}
+		if replaced {
+			continue
+		}
+		switch {
+		case s[i] == '\\' && i+1 < len(s):
+			b.WriteString(s[i : i+2])
+			i += 2
+			continue
+		case s[i] == '[':
+			inClass = true
+		case s[i] == ']':
+			inClass = false
+		}
+		b.WriteByte(s[i])
+		i++
+	}
+	return b.String()
+}
+
 type Argument interface {
 	String() string
 	Parse() error
@@ -474,10 +513,7 @@ type PatternArg struct {
 // As these patterns may be branched (contain '|' (or)), we need to
 // parenthesise the pattern before anchoring it.
 func (a *PatternArg) Parse() error {
-	s := a.String()
-	for k, v := range patternReplacements {
-		s = strings.Replace(s, k, v, -1)
-	}
+	s := replaceXMLClasses(a.String())
 	// The pattern has to be a regexp of its own: the parentheses added
 	// below must not pair up with unbalanced ones of the pattern ("a)(b").
 	if _, err := regexp.Compile(s); err != nil {
